@@ -41,3 +41,8 @@ Proof.
   destruct c as [tv nv dv runs]. unfold check, check_direct. cbn zeta.
   f_equal. apply forallb_ext'. intros r. apply run_ok_is_direct.
 Qed.
+
+(* the documents handed to model and spec by the check never hold a term twice, so the listed
+   counts are numbers of matching documents ([terms_facet_spec], second clause) *)
+Lemma checked_docs_nodup tv d : In d (map dv_text tv) -> NoDup d.
+Proof. intros H. apply in_map_iff in H as (v & <- & _). apply dedup_NoDup. Qed.
